@@ -312,7 +312,7 @@ func c38ManagerPart(r *vmc.Result) {
 	ends := []string{"xd", "yd", "yr"}
 	r.SetMax("manager_history_episodes", int64(maxEp))
 	r.Info["manager_history_alphabet"] = map[string]any{"who_dials": []string{"X", "Y"}, "ids_per_end": ks, "boundary": ends}
-	idx := 0
+	idx, sampled := 0, 0
 	c38Histories(maxEp, ks, ends, func(h []c38Episode) bool {
 		idx++
 		if r.Shards > 1 && (idx-1)%r.Shards != r.Shard {
@@ -345,7 +345,8 @@ func c38ManagerPart(r *vmc.Result) {
 			shape = append(shape, fmt.Sprint(got[i].X, got[i].Y))
 		}
 		r.Outcome("M:" + strings.Join(shape, ";"))
-		if len(h) == maxEp {
+		if len(h) == maxEp && len(roles) == 2 && sampled < 2 {
+			sampled++
 			r.Sample(map[string]any{"manager_history": c38HistString(h), "ids_per_episode_X_Y": shape})
 		}
 		return true
